@@ -338,4 +338,14 @@ def r10_option_table(ctx):
         ctx.floor("R10", "deserialize_option bodies that test emptiness", n, len(OPTION_BY_TEXT), config=cfg)
 
 
-RULES = [("R1", r1_inverse), ("R2", r2_sets), ("R3", r3_delimiter), ("R4", r4_split_before_unescape), ("R5", r5_keys), ("R6", r6_quote_target), ("R7", r7_bool_table), ("R8", r8_lists), ("R9", r9_numeric_table), ("R10", r10_option_table)]
+def r11_charrefs(ctx):
+    """the serializer writes some characters as numeric references (whitespace inside list items): every reference to
+    a valid non-zero scalar value must read back as that character (C10 R5 re-evaluated)"""
+    import c10
+    n0 = len(ctx.obs)
+    c10.r5_charref(ctx)
+    for o in ctx.obs[n0:]:
+        o["site"] = "charref:" + o["site"]
+        o["rule"] = "R11"
+
+RULES = [("R1", r1_inverse), ("R2", r2_sets), ("R3", r3_delimiter), ("R4", r4_split_before_unescape), ("R5", r5_keys), ("R6", r6_quote_target), ("R7", r7_bool_table), ("R8", r8_lists), ("R9", r9_numeric_table), ("R10", r10_option_table), ("R11", r11_charrefs)]
